@@ -236,6 +236,9 @@ class DistBeta(DistContinuous):
         """
         y1 = self._dist1.draw()
         y2 = self._dist2.draw()
+        while y1 + y2 == 0.0:  # both gamma draws can underflow to 0.0
+            y1 = self._dist1.draw()
+            y2 = self._dist2.draw()
         return y1 / (y1 + y2)
 
     def probability_density(self, x: float) -> float:
